@@ -54,6 +54,9 @@ CHECKS["C14"] = dict(technique="property-based testing (rapid): grammar-based ge
 CHECKS["C15"] = dict(technique="property-based testing (rapid): honest shuffles over generated permutations (all permutations enumerated for small k) + adversarial output families + a malicious prover forging transcripts against the verifier's equations",
   text="Pair shuffle, Shuffle, SequencesShuffle, Biffle and SimpleShuffle are proven and verified on generated ElGamal vectors; 14 tamper families on outputs, parameters and proof bytes must be rejected; a harness-written malicious prover produces transcripts satisfying the pair-shuffle verifier's linear checks for outputs that are sums, scalar multiples or arbitrary invertible linear images of the input and must be rejected; all k! permutations are enumerated for k<=4 (thorough 5). Exploration only.",
   note="Trusted: rapid; the forger relies on harness structs mirroring the proof message layout. Soundness is only claimed against the listed adversary families.", ref="4/C15")
+CHECKS["C10"] = dict(technique="property-based testing (rapid): model-based generated protocol histories (faulty deals through the real encryption path, valid/forged/Byzantine responses, good/bad justifications, timeouts) with invariants evaluated after every step on every party",
+  text="For both VSS variants the harness plays dealer, network and Byzantine parties: per-verifier deal faults (11 kinds) are encrypted by the dealer's own code, responses of 8 kinds and justifications of 5 kinds are delivered in generated orders with duplicates and timeouts; a harness model of each party's accepted history decides, independently of the library's return values, which messages are valid; after every step: approvals only for valid deals, certified => >= t valid approvals/justified complaints and no incorrect justification, documented completeness, certified => recoverable; plus all-honest runs with generated delivery orders. Exploration only.",
+  note="Trusted: rapid; the harness' own polynomial/commitment check (self-checked on an honest deal at start-up). No hook was needed: Dealer.PlaintextDeal returns the dealer's own deal, which is edited before EncryptedDeal. Justification signatures are not authenticated by the VSS layer and are not in the fault menu.", ref="4/C10")
 NOT_YET = {}
 
 def main():
